@@ -50,7 +50,10 @@ func newLibPrng(g cfg, entry int, src io.Reader, strength int, lv level, pers []
 
 // scriptSource adapts a mon.Script to the model's view of the entropy source: one Read per
 // request; anything but the full count without error is a failure.
-func scriptSource(s *mon.Script) ref.Source {
+func scriptSource(s *mon.Script) ref.Source { return readerSource(s) }
+
+// readerSource: the same view of any io.Reader (multi.go wraps the scripts into sources that fail once and recover).
+func readerSource(s io.Reader) ref.Source {
 	return func(n int) ([]byte, bool) {
 		b := make([]byte, n)
 		k, err := s.Read(b)
@@ -72,10 +75,12 @@ type rd struct {
 	lib    *drbg.DrbgPrng
 	model  *ref.Prng
 	ls, ms *mon.Script
-	start  time.Time
-	opened time.Time // the constructor returned (upper bound of the wrapper's first reseed time)
-	trace  []string
-	over   bool
+	// lsrc / msrc, when set, are handed to the constructors instead of ls / ms (two identical readers built on ls / ms)
+	lsrc, msrc io.Reader
+	start      time.Time
+	opened     time.Time // the constructor returned (upper bound of the wrapper's first reseed time)
+	trace      []string
+	over       bool
 	// decidable, when set, replaces the default stall rule of fail: it reports whether the monotonic
 	// clock brackets make the current verdict decidable (time-rule workload)
 	decidable func() bool
@@ -131,7 +136,11 @@ func (d *rd) open(entry, strength int, pers []byte) bool {
 	// the personalisation string in caller memory with dirty spare capacity (arena.go); it is inverted after the call
 	a, sl := lay(c.R, part{"personalization", pers, false})
 	defer a.scribble()
-	if !c.Call("constructor", func() { d.lib, d.fn, err = newLibPrng(d.g, entry, d.ls, strength, d.lv, sl[0]) }) {
+	var lsrc, msrc io.Reader = d.ls, d.ms
+	if d.lsrc != nil {
+		lsrc, msrc = d.lsrc, d.msrc
+	}
+	if !c.Call("constructor", func() { d.lib, d.fn, err = newLibPrng(d.g, entry, lsrc, strength, d.lv, sl[0]) }) {
 		return false
 	}
 	d.opened = time.Now()
@@ -141,7 +150,7 @@ func (d *rd) open(entry, strength int, pers []byte) bool {
 		return false
 	}
 	var merr error
-	d.model, merr = newModelPrng(d.g, scriptSource(d.ms), strength, d.lv, pers)
+	d.model, merr = newModelPrng(d.g, readerSource(msrc), strength, d.lv, pers)
 	d.logf("%s(strength=%d, pers=%d)", d.fn, strength, len(pers))
 	switch {
 	case merr != nil && err != nil:
